@@ -66,9 +66,9 @@ pub fn read_ts_server_challenge(stream: &[u8]) -> RdpResult<Vec<u8>> {
         Ok(())
     })?;
 
-    let nego_tokens = cast!(ASN1Type::SequenceOf, ts_request["negoTokens"]).unwrap();
-    let first_nego_tokens = cast!(ASN1Type::Sequence, nego_tokens.inner[0]).unwrap();
-    let nego_token = cast!(ASN1Type::OctetString, first_nego_tokens["negoToken"]).unwrap();
+    let nego_tokens = cast!(ASN1Type::SequenceOf, ts_request["negoTokens"])?;
+    let first_nego_tokens = cast!(ASN1Type::Sequence, try_option!(nego_tokens.inner.get(0), "CSSP: the server challenge carries no negoToken")?)?;
+    let nego_token = cast!(ASN1Type::OctetString, first_nego_tokens["negoToken"])?;
     Ok(nego_token.to_vec())
 }
 
